@@ -63,8 +63,16 @@ fn main() {
         fs::write(out.join(format!("{name}_probe.rs")), probe).unwrap();
         let hashes = "#".repeat(4);
         writeln!(mods, "#[allow(unused, non_camel_case_types, clippy::all)]\npub mod c_{name} {{ include!(concat!(env!(\"OUT_DIR\"), \"/{name}_lib.rs\")); include!(concat!(env!(\"OUT_DIR\"), \"/{name}_probe.rs\")); }}").unwrap();
-        writeln!(mods, "#[allow(unused, non_camel_case_types, clippy::all)]\npub mod m_{name} {{ peginator_macro::peginate!(r{hashes}\"{text}\"{hashes}); include!(concat!(env!(\"OUT_DIR\"), \"/{name}_probe.rs\")); }}").unwrap();
-        writeln!(table, "    ({name:?}, c_{name}::type_report as fn() -> Vec<String>, m_{name}::type_report as fn() -> Vec<String>, c_{name}::parse_debug as fn(&str) -> String, m_{name}::parse_debug as fn(&str) -> String),").unwrap();
+        // the same grammar text handed to the macro in every spelling of a string literal
+        let mut styles = vec![("hash", format!("r{hashes}\"{text}\"{hashes}")), ("esc", format!("{text:?}"))];
+        if !text.contains('"') {
+            styles.push(("raw", format!("r\"{text}\"")));
+            styles.push(("raw1", format!("r#\"{text}\"#")));
+        }
+        for (style, lit) in styles {
+            writeln!(mods, "#[allow(unused, non_camel_case_types, clippy::all)]\npub mod m_{name}_{style} {{ peginator_macro::peginate!({lit}); include!(concat!(env!(\"OUT_DIR\"), \"/{name}_probe.rs\")); }}").unwrap();
+            writeln!(table, "    (\"{name}/{style}\", c_{name}::type_report as fn() -> Vec<String>, m_{name}_{style}::type_report as fn() -> Vec<String>, c_{name}::parse_debug as fn(&str) -> String, m_{name}_{style}::parse_debug as fn(&str) -> String),").unwrap();
+        }
     }
     fs::write(out.join("mods.rs"), format!("{mods}\npub const ROUTES: &[(&str, fn() -> Vec<String>, fn() -> Vec<String>, fn(&str) -> String, fn(&str) -> String)] = &[\n{table}];\n")).unwrap();
 }
